@@ -10,6 +10,7 @@
 #include <gvt/fossil.h>
 
 #include <mm/msg_allocator.h>
+#include <verif/hooks.h>
 
 __thread unsigned fossil_epoch_current;
 /// The value of the last GVT, kept here for easier fossil collection operations
@@ -47,6 +48,7 @@ void fossil_lp_collect(struct lp_ctx *lp)
 	}
 
 	past_i = model_allocator_fossil_lp_collect(&lp->mm_state, past_i + 1);
+	VERIF_POINT(VP_FOSSIL, lp - lps, VERIF_D(gvt), past_i, array_count(proc_p->p_msgs));
 
 	array_count_t k = past_i;
 	while(k--) {
